@@ -42,7 +42,7 @@ partial def jInst : Inst → Json
   | .wild ns => Json.mkObj [("wild", jList jNode ns)]
   | .seqR rounds => Json.mkObj [("seq", jList (jList jInst) rounds)]
   | .choiceR rounds => Json.mkObj [("choice", jList (fun p => Json.arr #[jNat p.1, jInst p.2]) rounds)]
-  | .allR ms other dropped => Json.mkObj [("all", jList jInst ms), ("other", jList jNode other), ("dropped", jList jNode dropped)]
+  | .allR ms other => Json.mkObj [("all", jList jInst ms), ("other", jList jNode other)]
   | .groupR rounds => Json.mkObj [("group", jList jInst rounds)]
   | .failed => Json.mkObj [("failed", Json.bool true)]
 partial def jItem : Item → Json
